@@ -89,7 +89,7 @@ theorem inv_popLoop (ids : String → Bool) (n : Nat) (s s' : NavState) (h : Inv
   | succ n ih =>
     unfold popLoop at hl
     split at hl
-    · cases hl
+    · cases hl; exact h
     · split at hl
       · split at hl
         · rename_i r s1 hp
